@@ -293,7 +293,8 @@ func TestCheck(t *testing.T) {
 		// NTS over IP against the real listener and key exchange
 		r.Explore(mc.Config{Name: "ip-nts", Bound: -1}, programNTS(r, cat))
 		r.Explore(mc.Config{Name: "scion-nts", Bound: -1}, programSCIONNTS(r, cat))
+		r.Explore(mc.Config{Name: "scion-spao", Bound: -1}, programSCIONAuth(r))
 		r.Extra["catalogue_size"] = len(cat)
-		r.Extra["rule"] = "real IPClient and real SCIONClient, plain and NTS-protected against the real listeners / key exchange (NTS adds: previous genuine response, flipped authenticator byte, NTS fields stripped, previous response under this header) and real SCIONClient (NTP-level catalogue x 15 SCION-level mutations: wrong source / destination ISD-AS or host, source / destination host bytes under the service address type, SCMP, other L4, UDP length beyond the datagram, ...), basic request (no history) and interleaved request (after one undisturbed call): every ordered pair of datagrams from a catalogue of the genuine response and its single-field mutations (all 256 first bytes, stratum, 9 origin values, tx/rx order incl. era wrap, 36 origin x transmit/receive combinations, lengths, 4 source addresses; for a link-local IPv6 server reached through one interface also the same address in another zone / without zone / another host in the zone) is delivered before the genuine response; success must be justified by the acceptance predicate on the consumed datagram"
+		r.Extra["rule"] = "real IPClient and real SCIONClient, plain and NTS-protected against the real listeners / key exchange (NTS adds: previous genuine response, flipped authenticator byte, NTS fields stripped, previous response under this header) and real SCIONClient (NTP-level catalogue x 15 SCION-level mutations: wrong source / destination ISD-AS or host, source / destination host bytes under the service address type, SCMP, other L4, UDP length beyond the datagram, ...), an authenticating SCIONClient against the authenticating listener (the authenticated response with source / destination ISD-AS or host rewritten), basic request (no history) and interleaved request (after one undisturbed call): every ordered pair of datagrams from a catalogue of the genuine response and its single-field mutations (all 256 first bytes, stratum, 9 origin values, tx/rx order incl. era wrap, 36 origin x transmit/receive combinations, lengths, 4 source addresses; for a link-local IPv6 server reached through one interface also the same address in another zone / without zone / another host in the zone) is delivered before the genuine response; success must be justified by the acceptance predicate on the consumed datagram"
 	})
 }
